@@ -251,7 +251,7 @@ def fam_text_items():
   return Product([TOKENS, ["default", "preserve"], [0, 1]])
 
 
-TIME_VALUES = [F(0), F(1, 2000), F(1, 1000), F(3, 2000), F(1), F(1) + F(1, 3000), F(2), F(2) + F(4, 10000), F(2) + F(12, 10000), None]
+TIME_VALUES = [F(0), F(1, 2000), F(1, 1000), F(3, 2000), F(1), F(1) + F(1, 3000), F(2) - F(4, 10000), F(2), F(2) + F(4, 10000), F(2) + F(12, 10000), None]
 
 
 def time_doc(b1, e1, b2, e2):
